@@ -172,6 +172,7 @@ func checkC05(ctx *Ctx, r *Report, tier string) {
 		degenerateGuard(ctx, r, cf, "T6", "Triangle3")
 	}
 	degenerateTest(ctx, r, "T6", "Triangle3", 3)
+	degenerateToleranceZero(ctx, r, "T6", "render")
 	equalsAtZeroTolerance(ctx, r, "T6", "v3")
 	freshPrimitivePerIteration(ctx, r, "T6", kfn, "Triangle3")
 	r.floor("T6", 4)
